@@ -399,6 +399,18 @@ func (w *World) countsSelectResults(cl *ssa.Function) bool {
 						hasInc = true
 					}
 				}
+				// the increment written in a helper the loop calls (a counter object's method)
+				if c, isC := in.(*ssa.Call); isC {
+					if h := c.Call.StaticCallee(); h != nil && w.inPkg(h) && h != cl {
+						eachInstr(h, false, func(_ *ssa.Function, in2 ssa.Instruction) {
+							if bo, isB := in2.(*ssa.BinOp); isB && bo.Op == token.ADD && isIntType(bo.Type()) {
+								if k, isK := constInt(bo.Y); isK && k == 1 {
+									hasInc = true
+								}
+							}
+						})
+					}
+				}
 			}
 		}
 		if hasSel && hasInc {
